@@ -1,4 +1,10 @@
-"""C13 -- generator: the consumer sees exactly the yielded sequence, in every access style."""
+"""C13 -- generator: the consumer sees exactly the yielded sequence, in every access style.
+
+spec/Generator/Generator.tla enumerates (body script, consumer script) pairs lazily; every root-to-terminal path
+of the dumped state graph is one pair with its execution and is replayed on the real generator<int> /
+generator<int,int> by harness/generator_replay.cpp (each path in two consumer implementations)."""
+import os
+
 import vlib
 from framework import graph_replay
 
@@ -121,7 +127,16 @@ def run(ctx):
         def hdr(k, st0, witharg=witharg, modes=modes):
             return {"witharg": witharg, "modes": modes}
         replay(ctx, "Generator", "Generator", cfg, tag, rp, proj, header_fn=hdr, merge_re=MERGE,
-               must_take=COMMON + ASYNC, constants=consts or None, replay_timeout=3000)
+               must_take=COMMON + ASYNC, constants=consts or None, replay_timeout=3000, tlc_kw={"workers": 4})
+    if not q:
+        # larger bounds on the specification alone (all invariants, no replay)
+        for (cfg, tag) in (("Generator_noarg.cfg", "noarg_big"), ("Generator_arg.cfg", "arg_big")):
+            path = os.path.join(vlib.BUILD, "%s_%s.cfg" % (ctx.prop, tag))
+            vlib.write_cfg(path, open(os.path.join(vlib.VERIF, "spec/Generator", cfg)).read(),
+                           {"MaxBody": "6", "MaxAcc": "6", "MaxAfterEnd": "1"})
+            res = ctx.tlc("Generator", "Generator", path, tag, workers=4)
+            if res.violation:
+                ctx.tlc_violation(res, "Generator:" + tag)
     ctx.assume("values are ints: the n-th co_yield yields n, the i-th access passes 100+i, the k-th awaited operation completes with k")
     ctx.assume("library preconditions respected by the history generator: no access while another one is outstanding, arguments "
                "are lvalues that outlive the access, ++ only on an iterator that is not at the end, it++ only on a dereferenceable "
